@@ -13,7 +13,7 @@ import traceback
 
 from ..core import HarnessError, pmap, scratch_dir, rm
 from .. import audit
-from ..faultfs import FaultFS, CRASH_EXIT, KINDS_OPEN, KINDS_OTHER
+from ..faultfs import FaultFS, CRASH_EXIT, KINDS_OPEN, KINDS_OTHER, KINDS_READ
 
 MB = 1024 * 1024
 
@@ -91,7 +91,7 @@ def child(root, cache, steps, plan, uuid_base, record_audit=False):
 
             be = setup_env(root, cache)
             storemc._Uuid.n = uuid_base
-            fs = FaultFS([root])
+            fs = FaultFS([root], reads=True)
             fs.plan = dict(plan)
             res = []
             fs.install()
@@ -175,7 +175,7 @@ def record(scn, cache):
     # every audited mutation must have been announced by the interposition layer
     amap = {"open-w": "open-w", "os.mkdir": "mkdir", "os.remove": "unlink", "os.rename": "rename", "os.rmdir": "rmdir",
             "shutil.rmtree": "rmtree", "os.truncate": "truncate", "os.replace": "replace", "os.unlink": "unlink"}
-    seen = [k if k != "remove" else "unlink" for k, _ in pay["oplog"]]
+    seen = [k if k != "remove" else "unlink" for k, _ in pay["oplog"] if k != "open-r"]
     for ev, p in pay["audit"]:
         k = amap.get(ev)
         if k is None or k not in seen:
@@ -284,7 +284,7 @@ def run(ctx):
     ctx.level = "fault_enumeration"
     ctx.rule = ("for each of %d memoization scenarios x {no cache, 64 KiB cache}: EVERY mutating file-system op of the "
                 "fault-free log x every applicable fault kind (crash before; crash after create = empty file; crash mid-"
-                "write = first half on disk; error on open/mkdir/unlink; ENOSPC on first write leaving a truncated file); "
+                "write = first half on disk; error on open (also of every file READ while memoizing)/mkdir/unlink; ENOSPC on first write leaving a truncated file); "
                 "thorough adds every second fault during recovery. A case is distinct/non-trivial by its (scenario, fault "
                 "kind, per-call outcome and body-count vector) observation." % len(SCENARIOS))
     ctx.assumptions += ["process death and reported I/O errors only; no post-crash reordering of completed writes",
@@ -301,7 +301,7 @@ def run(ctx):
                           [(k, _norm(r)) for k, r in l1] == [(k, _norm(r)) for k, r in l2])
             logs[(si, cache)] = l1
             for idx, entry in enumerate(l1):
-                kinds = KINDS_OPEN if entry[0] == "open-w" else KINDS_OTHER
+                kinds = _kinds(entry)
                 for kind in kinds:
                     tasks.append((si, cache, idx, kind, None, op_class(entry)))
     ctx.extra["oplog_lengths"] = {"%s/cache=%d" % (SCENARIOS[si][0], c): len(l) for (si, c), l in logs.items()}
@@ -319,7 +319,7 @@ def run(ctx):
         t2 = []
         for (si, cache, idx, kind), log in p2:
             for j, entry in enumerate(log):
-                kinds = KINDS_OPEN if entry[0] == "open-w" else KINDS_OTHER
+                kinds = _kinds(entry)
                 for k2 in kinds:
                     t2.append((si, cache, idx, kind, (j, k2), op_class(logs[(si, cache)][idx])))
         res2 = pmap(fault_case, t2, chunksize=4)
@@ -328,6 +328,10 @@ def run(ctx):
     ctx.sample({"case": list(tasks[len(tasks) // 2][:4]), "op": tasks[len(tasks) // 2][5]})
     ctx.states = ctx.evaluations
     ctx.count()
+
+
+def _kinds(entry):
+    return KINDS_OPEN if entry[0] == "open-w" else (KINDS_READ if entry[0] == "open-r" else KINDS_OTHER)
 
 
 def _norm(rel):
